@@ -1497,17 +1497,26 @@ class Encoder:
 
     RI_IMPL_CONV = re.compile(r"^<impl (?:\w+::)*(TryRInto|RInto)<.*> as (?:\w+::)*(?:TryRInto|RInto)<(?:\w+::)*(ri(?:8|16|32|64|128))<(-?\d+|i\d+::MIN), (-?\d+|i\d+::MAX)>>>::(try_rinto|rinto)$")
 
+    RI_TRY_CONV = re.compile(r"^<(?:\w+::)*ri(?:8|16|32|64|128)<(?:-?\d+|i\d+::MIN), (?:-?\d+|i\d+::MAX)> as (?:\w+::)*TryRInto<(?:\w+::)*(ri(?:8|16|32|64|128))<(-?\d+|i\d+::MIN), (-?\d+|i\d+::MAX)>>>::try_rinto$")
+
     def rangeint_impl_conv(self, state, func, args):
         """conversions whose source is an `impl RInto<..>` / `impl TryRInto<..>` parameter of a generic body:
         the source is whatever ranged integer (or Constant) value arrives; the target is spelled out"""
         m = self.RI_IMPL_CONV.match(func.strip())
+        src_arg = 0
+        if not m:
+            # `<riA<..> as TryRInto<riB<lo, hi>>>::try_rinto(v, what)`: Ok(v) iff lo <= v <= hi (all three macro
+            # arms of `TryRFrom` in util/rangeint.rs reduce to `Self::contains(val)` in release builds)
+            m2 = self.RI_TRY_CONV.match(func.strip())
+            if m2:
+                m = re.match(r"^(x)(.*)\|(.*)\|(.*)\|(.*)$", "x%s|%s|%s|try_rinto" % (m2.group(1), m2.group(2), m2.group(3)))
         if not m or self.debug_assertions:
             return None
         tgt = m.group(2)
         rty = "i" + tgt[2:]
         lo = ty_range(rty)[0] if "MIN" in m.group(3) else int(m.group(3))
         hi = ty_range(rty)[1] if "MAX" in m.group(4) else int(m.group(4))
-        v = self.operand(state, args[0])
+        v = self.operand(state, args[src_arg])
         if isinstance(v, VAgg) and len(v.f) == 1 and isinstance(v.f.get(0), VInt):
             v = v.f[0]
         if not isinstance(v, VInt):
